@@ -499,7 +499,7 @@ Lemma parse_pi_tok text s acc s' acc' :
 Proof.
   unfold parse_pi. intros H. destruct (starts_with s (b "<?xml ")); [noerr|].
   ib H s1 H1. ib H q Hq. destruct q as [target s2]. cbv zeta in H.
-  ib H q3 H3. destruct q3 as [content s3]. ib H s4 H4. ib H c Hc.
+  ib H s2' H2'. ib H q3 H3. destruct q3 as [content s3]. ib H s4 H4. ib H c Hc.
   apply rec_ev_ok in Hc. inversion H; subst. eauto.
 Qed.
 
